@@ -20,7 +20,7 @@ ASSUMPTIONS = ['flow sizes are multiples of the MSS (512)', 'completion is deman
                'simulated-time bound; runs that hit the step cap before that bound are inconclusive, not violations',
                'the no-duplicate clause applies only to fault-free runs in which the path RTT was below the sender\'s RTO at '
                'every transmission']
-PROBES = ['real_path', 'tail_drop_on_path', 'sub_sink', 'sub_e2e', 'sub_clean', 'rto_fired', 'fast_retransmit', 'ack_lost', 'data_lost', 'duplicate_delivered',
+PROBES = ['second_connection', 'deadline_after_last_segment', 'synchronous_path', 'real_path', 'tail_drop_on_path', 'sub_sink', 'sub_e2e', 'sub_clean', 'rto_fired', 'fast_retransmit', 'ack_lost', 'data_lost', 'duplicate_delivered',
           'overtaken', 'cc_cubic', 'completed', 'inconclusive', 'first_segment_missing', 'sink_duplicate', 'sink_gap',
           'clean_precondition_held']
 
@@ -69,6 +69,16 @@ def gen(rng, tier):
                         'wire': rng.choice([0, 0.01, 0.05]), 'wire_ack': rng.choice([0, 0.01, 0.05])}
         case['d_data'] = rng.choice([0, 0.01, 0.05])
         case['d_ack'] = rng.choice([0, 0.01, 0.05])
+    if rng.random() < 0.1 and not case.get('path'):
+        # the two ends wired to each other directly: no delay at all, every hand-over happens inside put()
+        case['sync_path'] = rng.choice(['both', 'both', 'data', 'ack'])
+    if rng.random() < 0.15:
+        # a second connection of the same kind in the same simulation (same sequence numbers, its own ends and paths)
+        case['second_conn'] = {'segments': rng.randint(1, 12), 'd': rng.choice([0.01, 0.05, 0.25]),
+                               'drop': sorted(set(rng.randint(0, 12) for _ in range(rng.randint(0, 3))))}
+    if rng.random() < 0.08:
+        # the flow's finish_time passes right after the last new segment went out: repairs must go on
+        case['deadline'] = rng.choice([0.001, 0.01, 0.5])
     if r < 0.4 and not case.get('path'):
         case['sub'] = 'clean'
         if not case.get('short_path'):
@@ -95,6 +105,17 @@ class AckRec:
 
     def put(self, p):
         self.w.rec('ACK', p.ack, p.packet_id, p.flow_id, san(p.time))
+
+
+class Prefixed:
+    """The world as seen by a second connection: same simulation, record tags with a suffix (kept out of the checks of
+    the connection under observation)."""
+
+    def __init__(self, w, suffix):
+        self.w, self.env, self.suffix = w, w.env, suffix
+
+    def rec(self, tag, *rest):
+        self.w.rec(tag + self.suffix, *rest)
 
 
 class SinkTap:
@@ -189,10 +210,23 @@ def run_e2e(w, case):
         wire_a.out = sender
         ack_link = FaultLink(w, 'ack', wire_a, fa, case.get('d_ack', 0.05))
     else:
-        data_link = FaultLink(w, 'data', sink, fd, case.get('d_data', 0.05))
+        sp = case.get('sync_path')
+        if sp:
+            stats['synchronous_path'] = 1
+        data_link = FaultLink(w, 'data', sink, fd, case.get('d_data', 0.05), sync=sp in ('both', 'data'))
         sender, flow = make_sender(w, case, data_link)
-        ack_link = FaultLink(w, 'ack', sender, fa, case.get('d_ack', 0.05))
+        ack_link = FaultLink(w, 'ack', sender, fa, case.get('d_ack', 0.05), sync=sp in ('both', 'ack'))
     sink.out = ack_link
+    if case.get('second_conn'):
+        sc = case['second_conn']
+        w2 = Prefixed(w, '2')
+        sink2 = TCPSink(env)
+        c2 = dict(case)
+        c2.update({'segments': sc.get('segments', 3), 'fid': 2, 'tail': 0, 'pace': None, 'finish': 1e12})
+        dl2 = FaultLink(w2, 'data', sink2, dict((str(k), 'drop') for k in sc.get('drop', [])), sc.get('d', 0.05))
+        sender2, _f2 = make_sender(w2, c2, dl2)
+        sink2.out = FaultLink(w2, 'ack', sender2, {}, sc.get('d', 0.05))
+        stats['second_connection'] = 1
     if case.get('cc') == 'cubic':
         stats['cc_cubic'] = 1
     w.run(max_steps=60000)
@@ -281,7 +315,18 @@ def run(case):
     if case.get('sub') == 'sink':
         viol, stats, nt = run_sink(w, case)
     else:
+        if case.get('deadline') and case.get('sub') != 'clean' and 'finish' not in case:
+            # dry run: when did the last new segment go out for the first time?
+            dry = NetWorld()
+            run_e2e(dry, case)
+            last = (case.get('segments', 1) - 1) * MSS
+            first = [r[2] for r in dry.log if r[0] == 'SEG' and r[3] == last]
+            if first:
+                case = dict(case)
+                case['finish'] = first[0] + case['deadline']
         viol, stats, nt = run_e2e(w, case)
+        if 'finish' in case:
+            stats['deadline_after_last_segment'] = 1
     for r in w.log:
         if r[0] == 'ERR' and not any(v[0].startswith('C16.2/') for v in viol):
             viol.append(('C16.2/%s' % (r[4][1] if isinstance(r[4], tuple) and len(r[4]) > 1 else 'exc'),
